@@ -35,6 +35,13 @@ def content_bytes(spec):
         s, n = int(s), int(n)
         k = (s % 4) * n // 4
         return gen_content(s, k) + bytes(n - k)
+    if kind == "t":
+        # as "g", with the last k bytes inverted (a change near the END of a long file)
+        s, n, k = rest.split(":")
+        b = bytearray(gen_content(int(s), int(n)))
+        for j in range(max(0, len(b) - int(k)), len(b)):
+            b[j] ^= 0xFF
+        return bytes(b)
     if kind in ("sp", "sd"):
         # n bytes as in "g", then zeros up to `total`; "sp": the zeros are a HOLE (the file is extended with ftruncate, nothing is
         # written there), "sd": the same bytes written out
